@@ -1354,11 +1354,7 @@ func (d *Data) NewVoxels(geom dvid.Geometry, img interface{}) (*Voxels, error) {
 		voxels.data = make([]uint8, requestSize)
 		// Voxels of blocks that were never stored must read as background, as they do
 		// in BackgroundBlock() and GetBlocks().
-		if d.Background != 0 && bytesPerVoxel == 1 {
-			for i := range voxels.data {
-				voxels.data[i] = d.Background
-			}
-		}
+		d.fillBackground(voxels.data)
 	} else {
 		switch t := img.(type) {
 		case image.Image:
